@@ -91,3 +91,45 @@ Proof.
   intros H. induction v as [|x v IH]; intros s; cbn [fold_p fold_left]; [reflexivity|].
   rewrite H. cbn [bindT]. apply IH.
 Qed.
+
+(** * Result<T, ValidationError>, with the error reduced to its policy tag
+
+    Used by the translations that keep the tag (Gen/CommitmentPolicyGen.v).  Of a
+    [ValidationError] only the tag is kept (the message and the kind do not enter the decision);
+    a function body is a computation in [trap (result A)]: a panic, an early return of [Err], or a
+    value.  The translations made before (Gen/PaymentsGen.v) render [Result<(), _>] as [bool]. *)
+From Coq Require Import String.
+From Coq Require Import List.          (* [length] means the list function again *)
+
+Inductive result (A : Type) := OkR (a : A) | ErrR (tag : string).
+Arguments OkR {A} a.
+Arguments ErrR {A} tag.
+
+(** [e?] : continue with the value of [Ok], leave the function with the error of [Err] *)
+Definition bindR {A B} (x : trap (result A)) (f : A -> trap (result B)) : trap (result B) :=
+  match x with
+  | Trap => Trap
+  | Val (ErrR t) => Val (ErrR t)
+  | Val (OkR a) => f a
+  end.
+Notation "x <-? e ;; k" := (bindR e (fun x => k)) (at level 61, e at next level, right associativity).
+
+(** [policy_err!(self, tag, ..)] = [self.policy().policy_error(tag, msg)?] : the policy filter
+    decides; a tag it downgrades to a warning lets execution continue *)
+Definition policy_err (warn : string -> bool) (tag : string) : trap (result unit) :=
+  if warn tag then Val (OkR tt) else Val (ErrR tag).
+
+(** [opt.ok_or_else(|| policy_error(tag, ..))] : the error is built without asking the filter *)
+Definition ok_or {A} (o : option A) (tag : string) : trap (result A) :=
+  match o with Some a => Val (OkR a) | None => Val (ErrR tag) end.
+
+(** [for x in &v { body }] over the loop-carried state, for a body that may leave the function
+    with an error ([?], [policy_err!]): the first error ends the loop and is the function's answer *)
+Fixpoint fold_r {S A} (body : S -> A -> trap (result S)) (v : list A) (s : S) : trap (result S) :=
+  match v with
+  | [] => Val (OkR s)
+  | x :: r => s1 <-? body s x ;; fold_r body r s1
+  end.
+
+(** [v.len()] of a Vec of any element type *)
+Definition len_of {A} (v : list A) : N := N.of_nat (length v).
